@@ -433,11 +433,11 @@ impl World {
         Ok(World { store, app })
     }
     fn log_frames(&self) -> Option<Vec<truth::Frame>> {
-        truth::parse_log(&self.store.log_bytes()).ok()
+        truth::parse_log(&self.store.log_bytes_settled()).ok()
     }
     /// Frames of one stream (only lines mentioning the id are parsed; worlds are reused).
     fn stream_log(&self, kind: Kind, id: &str) -> Option<Vec<Value>> {
-        stream_from_bytes(&self.store.log_bytes(), kind, id)
+        stream_from_bytes(&self.store.log_bytes_settled(), kind, id)
     }
 }
 
@@ -1595,7 +1595,7 @@ fn stress_case(cx: &mut Ctx, r: &mut Report, idx: u64, rng: &mut Rng) {
         })
         .await
         .is_some();
-        let bytes = w.store.log_bytes();
+        let bytes = w.store.log_bytes_settled();
         let mut logs: Logs = BTreeMap::new();
         for t in &targets {
             let id = t.id.lock().unwrap().clone().unwrap_or_default();
